@@ -192,6 +192,13 @@ def merge_val(c, a, b):
             return ObjRef(b.name, b.cls, z3.If(c, z3.BoolVal(True), nb_))
         if an and bn:
             return a
+    # a raw pointer that is nullptr on one path and refers to an object on the other
+    if isinstance(a, ObjRef) and isinstance(b, PtrV) and b.region is None:
+        na = a.null if a.null is not None else z3.BoolVal(False)
+        return ObjRef(a.name, a.cls, z3.If(c, na, z3.BoolVal(True)))
+    if isinstance(b, ObjRef) and isinstance(a, PtrV) and a.region is None:
+        nb_ = b.null if b.null is not None else z3.BoolVal(False)
+        return ObjRef(b.name, b.cls, z3.If(c, z3.BoolVal(True), nb_))
     if isinstance(a, (Opaque, VoidV)) and isinstance(b, (Opaque, VoidV)):
         return a
     return None
